@@ -176,6 +176,51 @@ def run(rep, only=None):
             else:
                 c2[j] = rng.choice([('mp',), ('pop',), ('implies',), ('gen', 0), ('instantiate', (0,)), ('save',)])
             hist.append((cl, c2, 'mutated'))
+    # steered families (neither is produced by the walk generator):
+    #  * two DIFFERENT pending claims, proofs published in the wrong order (the machine pops the claims in a fixed order and refuses a
+    #    proof of another claim; so must the tracker)
+    #  * a PATTERN saved in the gamma / claim phase, then an axiom, and a proof-phase Load of the entries stored behind it (the machine's
+    #    memory lives across the three phases: the slot of the saved pattern stays occupied)
+    from .. import pytrack as pt_
+    phi = lambda i: ('mv', i, (), (), (), (), ())   # noqa: E731
+    concl = {'prop1': ('imp', phi(0), ('imp', phi(1), phi(0))),
+             'prop3': ('imp', ('imp', ('imp', phi(0), ('inst', ('mu', 0, ('svar', 0)), ())), ('inst', ('mu', 0, ('svar', 0)), ())), phi(0))}
+    for k in range(6 if quick else 40):
+        a, b = ('prop1', 'prop3') if k % 2 == 0 else ('prop3', 'prop1')
+        cl = [concl[a], concl[b]]
+        claim_calls = []
+        for c_ in reversed(cl):
+            claim_calls += pt_.compile_pattern(c_) + [('publish-claim',)]
+        first, second = ((b,), (a,)) if k % 3 != 2 else ((a,), (b,))      # two of three: wrong order
+        calls = [('into-claim',)] + claim_calls + [('into-proof',), first, ('publish-proof',), second, ('publish-proof',)]
+        hist.append((cl, calls, 'publish-order'))
+    for k in range(6 if quick else 40):
+        pat = genhist.npat_for_calls(rng, 1, subst=0.0)
+        ax = [genhist.npat_for_calls(rng, 1, subst=0.0) for _ in range(rng.choice((1, 2)))]
+        tr = pt_.Tracker()
+        calls = []
+        try:
+            where = rng.choice(('gamma', 'claim'))
+            pre = pt_.compile_pattern(pat) + [('save',)]
+            if where == 'gamma':
+                calls += pre
+            for a_ in ax:
+                calls += pt_.compile_pattern(a_) + [('publish-axiom',)]
+            calls += [('into-claim',)]
+            if where == 'claim':
+                calls += pre
+            calls += [('into-proof',)]
+            for c_ in calls:
+                tr.call(c_)
+            tr.call(('prop1',)); calls.append(('prop1',))
+            tr.call(('save',)); calls.append(('save',))
+            loads = [m for m in tr.memory if m[0] == 'proved']
+            rng.shuffle(loads)
+            for m in loads[:3]:
+                calls.append(('load', m))
+        except pt_.Raise:
+            continue
+        hist.append(([], calls, 'memory-across-phases'))
     if only:
         hist = [only]
     lines = ['track ' + genhist.history_to_s(cl, calls) for cl, calls, _ in hist]
